@@ -135,6 +135,15 @@ def float_psi(phi, theta, n):
     return ps
 
 
+def guarded(ctx, inp, fn):
+    """run the implementation; an exception on an admissible input is itself a violation"""
+    try:
+        return fn()
+    except Exception as e:       # noqa
+        ctx.fail("raises_on_admissible_input", "%s raised %s: %s" % (inp.get("function"), type(e).__name__, str(e)[:200]), inp, type(e).__name__, "a value")
+        return None
+
+
 # ------------------------------------------------------------------ run
 def run(ctx):
     from quantecon._inequality import gini_coefficient, lorenz_curve
@@ -159,13 +168,14 @@ def run(ctx):
     for n in lens:
         y = gen_sample(rng, n)
         arr = np.array(y)
-        g = float(gini_coefficient(arr))
-        cp, ci = lorenz_curve(arr)
-        cp, ci = [float(v) for v in cp], [float(v) for v in ci]
-        F = ECDF(y)
         srt = sorted(y)
         xs = [srt[0] - 1.0, srt[-1], srt[-1] + 0.5, rng.choice(y), rng.choice(y), (srt[0] + srt[-1]) / 2, rng.uniform(0, 10)]
-        ev = [float(v) for v in F(np.array(xs))]
+        res = guarded(ctx, {"function": "gini_coefficient", "y": y},
+                      lambda: (float(gini_coefficient(arr)), lorenz_curve(arr), [float(v) for v in ECDF(y)(np.array(xs))]))
+        if res is None:
+            continue
+        g, (cp, ci), ev = res
+        cp, ci = [float(v) for v in cp], [float(v) for v in ci]
         for x, v in zip(xs, ev):
             k = sum(1 for o in y if o <= x)
             if v != k / n:
@@ -194,10 +204,12 @@ def run(ctx):
     for _ in range(200 if thorough else 40):
         trip.append((rng.randrange(1, 61), Fraction(rng.randrange(3, 800), 40), Fraction(rng.randrange(3, 800), 40)))
     for n, a, b in trip:
-        d = BetaBinomial(n, float(a), float(b))
-        pdf = [float(v) for v in d.pdf()]
-        mean, var, std, skew = float(d.mean), float(d.var), float(d.std), float(d.skew)
         inp = {"function": "BetaBinomial", "n": n, "a": str(a), "b": str(b)}
+        d = BetaBinomial(n, float(a), float(b))
+        res = guarded(ctx, inp, lambda: ([float(v) for v in d.pdf()], float(d.mean), float(d.var), float(d.std), float(d.skew)))
+        if res is None:
+            continue
+        pdf, mean, var, std, skew = res
         ctx.case(("bb", n, str(a), str(b)), nontrivial=(n >= 2 and a != b), sample={"BetaBinomial": [n, float(a), float(b)], "mean": mean, "var": var, "skew": skew})
         ctx.count("bb:n=%s" % ("1-5" if n <= 5 else "6-30" if n <= 30 else "31+")); ctx.count("bb:a<b" if a < b else "bb:a>=b")
         # oracle: moments of the implementation's own pdf
@@ -251,6 +263,9 @@ def run(ctx):
             ctx.count("arma:theta_scalar" if np.isscalar(theta_arg) else "arma:theta_list")
             ctx.case(("arma", str(phi), str(theta_arg), sigma, n), nontrivial=(p + q >= 2), sample={"ARMA": inp, "psi": psi[:5]})
             # oracle 1: psi_0 = 1 and the ARMA recursion, on the implementation's output
+            if not all(math.isfinite(v) for v in psi):
+                ctx.fail("arma_impulse", "impulse response contains non-finite values", inp, psi[:8], None)
+                continue
             ex = exact_psi(phi_l, theta_eff, n)
             if len(psi) != n or any(abs(frac(a) - e) > Fraction(1, 10**9) * (1 + abs(e)) for a, e in zip(psi, ex)):
                 ctx.fail("arma_impulse", "impulse response violates psi_0=1 / the ARMA recursion", inp, psi[:8], [float(e) for e in ex[:8]])
@@ -372,9 +387,11 @@ def run(ctx):
     ns = list(range(1, 14)) + [rng.randrange(14, 80) for _ in range(30 if thorough else 10)] + [64, 65]
     for n in ns:
         x = [rng.randrange(-40, 41) / 8.0 for _ in range(n)]
-        w, I = periodogram(np.array(x))
-        w, I = [float(v) for v in w], [float(v) for v in I]
         inp = {"function": "periodogram", "x": x}
+        res = guarded(ctx, inp, lambda: periodogram(np.array(x)))
+        if res is None:
+            continue
+        w, I = [float(v) for v in res[0]], [float(v) for v in res[1]]
         ctx.count("pgram:" + ("even" if n % 2 == 0 else "odd"))
         ctx.case(("pgram", tuple(x)), nontrivial=(n >= 3), sample={"periodogram": x[:6], "n": n, "len_out": len(w)})
         # direct DFT (independent of numpy.fft)
